@@ -1178,7 +1178,7 @@ fn main() -> unit {{
     )
 }
 
-fn emit_instance_case(id: &str, family: &str, variant: &str, bases: &[&str], fns: &[&str], src: &str, dir: &std::path::Path, out: &mut String) {
+pub(crate) fn emit_instance_case(id: &str, family: &str, variant: &str, bases: &[&str], fns: &[&str], src: &str, dir: &std::path::Path, out: &mut String) {
     match util::compile_text(dir, src) {
         Outcome::Ok(c) => {
             // the REAL instance tables: names of the monomorphic copies of each designated base
@@ -1407,6 +1407,11 @@ pub fn main_inst(args: &util::Args) {
     }
     let n_ident = ident_cases(args, &dir, &mut out);
     n += n_ident;
+    // part E: the instance-name universe (c19univ.rs); its per-type rows go to a file of their own
+    let mut univ = String::new();
+    let n_univ = crate::c19univ::run(args, &dir, &mut out, &mut univ);
+    n += n_univ;
+    std::fs::write(args.out.join("c19inst.univ.tsv"), univ).expect("write");
     let _ = std::fs::remove_dir_all(&dir);
     let _ = writeln!(out, "#FEATS\tpair_cases={} duo_cases={} ident_kinds={} ident_programs={} programs={}", pair_cases().len(), duo_cases().len(), IDENT_KINDS.len(), n_ident, n);
     std::fs::write(args.out.join("c19inst.cases.tsv"), out).expect("write");
